@@ -133,4 +133,27 @@ def step (fields : List String) : String :=
     s!"{id} eq={boolS (m == impl)} C02={v.c02} C03={v.c03} C04={v.c04} model={m}"
   | _ => "bad-line"
 
+/-- one protocol line of engine `T` (C20): `T|id|file|patch|F'|=>|implF|implF'` -/
+def stepT (fields : List String) : String :=
+  match fields with
+  | [_, id, file, patch, f2, _, impl1, impl2] =>
+    let f0 := fileOf file
+    let p := patchOf patch
+    let p2 := { p with fuzz := natOf f2 }
+    let m1 := modelOut f0 [p]
+    let m2 := modelOut f0 [p2]
+    let a1 := (impl1.splitOn " ").filter (· ≠ "") |>.map (itemOf f0.existed) |>.find? (fun it => it.tag == "a")
+    let a2 := (impl2.splitOn " ").filter (· ≠ "") |>.map (itemOf f0.existed) |>.find? (fun it => it.tag == "a")
+    let c20 := match a1, a2 with
+      | some x, some y =>
+        if x.panic || x.reps.any Rep.isFailed then "na"
+        else if y.panic then "FAIL:panic-at-higher-fuzz"
+        else if !sameState x.file y.file then "FAIL:file-differs"
+        else if y.reps.any Rep.isFailed then "FAIL:fails-at-higher-fuzz"
+        else if p.fp.kind == Kind.modify && x.reps != y.reps then "FAIL:reports-differ"
+        else "ok"
+      | _, _ => "FAIL:missing-output"
+    s!"{id} eq={boolS (m1 == impl1 && m2 == impl2)} C20={c20} model={m1}|{m2}"
+  | _ => "bad-line"
+
 end RQ.ApplyEngine
